@@ -35,6 +35,21 @@ MAXD = fractions.Fraction((2 ** 53 - 1) * 2 ** 971)
 MINN = fractions.Fraction(1, 2 ** 1022)
 
 
+def zeros_after_point(d):
+    """number of zeroes between the decimal point and the first significant digit of |d| in plain notation (negative: the
+    first significant digit stands left of the point), exactly"""
+    from fractions import Fraction
+    x = Fraction(abs(d))
+    if x == 0:
+        return 0
+    k = 0
+    while x < 1:
+        x *= 10; k += 1
+    while x >= 10:
+        x /= 10; k -= 1
+    return k - 1
+
+
 def in_normal_range(D, scale):
     if D == 0:
         return True
@@ -204,6 +219,11 @@ def c10(tier, replay=None):
                       (1.7976931348623157e308, 0.0, -300), (2.2250738585072014e-308, 0.0, 310)):
         fcases.append(("init", d, su, sc, 5))
         fcases.append(("init", -d, su, sc, 0))
+    # the notation rule of cif_value_init_numb: leading-zero counts on both sides of several limits
+    for d, sc in ((0.0012, 4), (-0.05, 2), (1.2e-8, 9), (0.5, 1), (0.012, 3), (1.2e-6, 7), (9.99e-4, 6), (0.0999, 4), (1.2e-7, 8)):
+        for mlz in (0, 1, 2, 3, 5, 6, 7, 8):
+            fcases.append(("init", d, 0.0, sc, mlz))
+            fcases.append(("init", d, abs(d) * 0.25, sc, mlz))
     for d, su, rule in ((1.2345e-150, 2.1e-153, 19), (1e300, 0.0, 9), (6.02214076e123, 4.5e117, 27), (-3.3e-200, 1e-203, 19), (1e100, 3e98, 19), (9.95e99, 6e98, 9)):
         fcases.append(("auto", d, su, rule, 0))
 
@@ -237,13 +257,14 @@ def c10(tier, replay=None):
             # interface (text, number, su) cannot tell that from "0", which is what its text parses back to
             v = dict(v, dg="0")
         if v.get("k") != "numb":
-            recs.append({"t": "format", "rc": o.get("rc", -1) or -1, "digits": [], "scale": 0, "m": [], "e": 0, "hassu": False, "su": [], "sum": [], "sue": 0, "roundtrip": False, "mode": mode, "reqscale": a, "rule": a})
+            recs.append({"t": "format", "rc": o.get("rc", -1) or -1, "digits": [], "scale": 0, "m": [], "e": 0, "hassu": False, "su": [], "sum": [], "sue": 0, "roundtrip": False, "mode": mode, "reqscale": a, "rule": a, "sci": False, "ndig": 0, "mlz": mlz, "zeros0": 0})
             owners.append(("format", mode, d, su, a, mlz, v.get("t"))); continue
         sg, m, e, kind = decompose(hex_of(d))
         s2, m2, e2, k2 = decompose(hex_of(su))
         recs.append({"t": "format", "rc": o.get("rc", -1), "digits": digs(int(v["dg"])), "scale": v["sc"], "m": digs(m), "e": e, "hassu": v.get("su") is not None,
                      "su": digs(int(v["su"])) if v.get("su") is not None else [], "sum": digs(m2), "sue": e2,
-                     "roundtrip": rt.get(v["t"]) == (v.get("dg"), v.get("su"), v.get("sc"), v.get("sg")), "mode": mode, "reqscale": a if mode == "init" else 0, "rule": a if mode == "auto" else 0})
+                     "roundtrip": rt.get(v["t"]) == (v.get("dg"), v.get("su"), v.get("sc"), v.get("sg")), "mode": mode, "reqscale": a if mode == "init" else 0, "rule": a if mode == "auto" else 0,
+                     "sci": "e" in (v.get("t") or "").lower(), "ndig": 0 if int(v["dg"]) == 0 else len(str(int(v["dg"]))), "mlz": mlz, "zeros0": zeros_after_point(d)})
         owners.append(("format", mode, d, su, a, mlz, v.get("t")))
     # BigNat self-check
     for _ in range(40):
@@ -279,7 +300,7 @@ def c10(tier, replay=None):
         if o[0] == "parse":
             rep.violation("parse rounding: %d-digit mantissa" % len(re.sub(r"\D", "", o[1].split("e")[0].split("(")[0])), "text %r converts to %s (su %s): not a nearest double" % (o[1], o[2], o[3]), {"text": o[1], "double": o[2], "su_double": o[3]})
         else:
-            rep.violation("format %s" % o[1], "%s(val=%r, su=%r, %s=%s, mlz=%s) produced %r: not the correctly rounded rendering / does not round-trip / wrong scale" % (o[1], o[2], o[3], "scale" if o[1] == "init" else "rule", o[4], o[5], o[6]),
+            rep.violation("format %s" % o[1], "%s(val=%r, su=%r, %s=%s, mlz=%s) produced %r: not the correctly rounded rendering / does not round-trip / wrong scale / notation against the documented rule" % (o[1], o[2], o[3], "scale" if o[1] == "init" else "rule", o[4], o[5], o[6]),
                           {"mode": o[1], "val": hex_of(o[2]), "su": hex_of(o[3]), "arg": o[4], "mlz": o[5], "text": o[6], "record": recs[at - 1]})
     rep.samples = [{"string": items[100][0], "number": items[100][1]}, {"text": ptexts[5]}, {"format": fcases[3]}]
     log("[C10] syntax strings %d ok %d; exact records %d (parse %d, format %d) breaches %d (TLC %.1fs)" % (len(texts), nsyn, len(recs), len(ptexts), len(fobs), nb, time.time() - t0))
